@@ -1088,6 +1088,23 @@ func c06RandRigCase(r *rand.Rand, cores int, withFlush bool) c06RigCase {
 		c.Ops = append(c.Ops, c06Op{Core: 0, Kind: "r", Addr: x - x%4, Width: 4, Delay: 100 + r.Intn(50)})
 		return c
 	}
+	if cores >= 3 && !withFlush && r.Intn(5) == 0 {
+		// a store to a line two other cores share, while the snoop of one sharer is busy writing back ANOTHER
+		// line: the writer must wait for BOTH invalidations before it becomes Modified
+		c.MemSize = 4096
+		x := int32(r.Intn(8) * 64)
+		y := x + 64*int32(1+r.Intn(6))
+		j := func(n int) int { return r.Intn(n) }
+		c.Ops = append(c.Ops, c06Op{Core: 1, Kind: "r", Addr: x + int32(4*j(16)), Width: 4, Delay: j(3)})
+		c.Ops = append(c.Ops, c06Op{Core: 2, Kind: "r", Addr: x + int32(4*j(16)), Width: 4, Delay: j(3)})
+		c.Ops = append(c.Ops, c06Op{Core: 2, Kind: "w", Addr: y + int32(4*j(16)), Width: 4, Delay: 320 + j(20), Val: int32(r.Uint32())})
+		t := 700 + j(40)
+		c.Ops = append(c.Ops, c06Op{Core: 1, Kind: "r", Addr: y + int32(4*j(16)), Width: 4, Delay: t})
+		c.Ops = append(c.Ops, c06Op{Core: 0, Kind: "w", Addr: x + int32(4*j(16)), Width: 4, Delay: t + 310 + []int{0, 1, 2, 3, 5, 10, 50, 150, 300, 305, 308, 312}[j(12)], Val: int32(r.Uint32())})
+		c.Ops = append(c.Ops, c06Op{Core: 1, Kind: "r", Addr: x, Width: 4, Delay: 400 + j(300)})
+		c.Ops = append(c.Ops, c06Op{Core: 2, Kind: "r", Addr: x, Width: 4, Delay: 400 + j(300)})
+		return c
+	}
 	var lines []int32
 	switch r.Intn(4) {
 	case 0:
